@@ -256,7 +256,11 @@ def write_replay(prop, seed, idx, body):
     return p
 
 
-def drive(lines_path, verdict_path):
+def drive(lines_path, verdict_path, timeout=3600):
     with open(lines_path) as fin, open(verdict_path, "w") as fout:
-        p = subprocess.run([DRIVER], stdin=fin, stdout=fout, stderr=subprocess.PIPE, text=True, timeout=3600)
+        try:
+            p = subprocess.run([DRIVER], stdin=fin, stdout=fout, stderr=subprocess.PIPE, text=True, timeout=timeout)
+        except subprocess.TimeoutExpired:
+            # the cases judged so far stay; the rest of the shard is reported as not judged (a broken tie, not a crash)
+            return 124, "the Lean driver did not finish judging this shard within %ds" % timeout
     return p.returncode, p.stderr
